@@ -36,6 +36,13 @@ func (e *Engine) verifyFunc(fn *ssa.Function, c *Contract, sweep bool) (u *Unit,
 	if fn.Blocks == nil {
 		return u, unsupported("no body")
 	}
+	if c != nil && c.Trusted {
+		if c.TypeFrame {
+			u.typeFrameCheck()
+		}
+		u.note(u.key + ": trusted contract, body not verified")
+		return u, nil
+	}
 	if fn.Recover != nil {
 		u.note(u.key + ": recover block is not entered (absence of panics is proved separately)")
 	}
@@ -498,7 +505,7 @@ func (u *Unit) loopEnter(st *State, from, h *ssa.BasicBlock) {
 				before = u.heapGet(st, comp, sort)
 			}
 			u.havocComp(st, comp)
-			if known && pol.active {
+			if known && pol.active && u.restricted(comp) {
 				// Loop frame. Every write in the body carries a frame obligation (fresh object or a
 				// location of the modifies clause), so locations that existed at function entry and are
 				// outside the modifies clause keep their value across iterations.
@@ -573,8 +580,20 @@ func (u *Unit) loopEnter(st *State, from, h *ssa.BasicBlock) {
 }
 
 func (u *Unit) loopBackEdge(st *State, from, h *ssa.BasicBlock) {
-	u.ghostAt(st, h, fmt.Sprintf("loop %d body end", u.headers[h]))
 	in := u.phiIncoming(st, from, h)
+	{
+		// ghost updates at the end of the body see the new values by name and the values at the
+		// loop head as #hd_<name>
+		ctx := u.loopCtx(st, h, in)
+		for _, ins := range h.Instrs {
+			if phi, ok := ins.(*ssa.Phi); ok && phi.Comment != "" {
+				if t, ok := st.vals[phi]; ok {
+					ctx.vars["__h_hd_"+phi.Comment] = t
+				}
+			}
+		}
+		u.ghostUpdates(st, fmt.Sprintf("loop %d body end", u.headers[h]), ctx)
+	}
 	inv, dec := u.loopClauses(h)
 	for _, c := range inv {
 		ctx := u.loopCtx(st, h, in)
@@ -712,6 +731,38 @@ func (u *Unit) addrComps(addr ssa.Value, ms *modSet) {
 func (u *Unit) havocAll(st *State) {
 	st.heap = map[string]Term{}
 	st.epoch++
+	u.nfresh++
+	st.epochID = u.nfresh
+	st.keepNone = true
+	st.keepPkgs = nil
+}
+
+// havocAllExcept: everything may have changed except components of the given packages
+// (a callee that preserves them; objects it allocates are read as unconstrained).
+func (u *Unit) havocAllExcept(st *State, pkgs []string) {
+	nh := map[string]Term{}
+	for comp, t := range st.heap {
+		if pkgMatches(u.eng.compPkg[comp], pkgs) {
+			nh[comp] = t
+		}
+	}
+	st.heap = nh
+	if st.epoch == 0 && !st.keepNone {
+		st.keepPkgs = append([]string(nil), pkgs...)
+	} else {
+		var inter []string
+		for _, a := range st.keepPkgs {
+			for _, b := range pkgs {
+				if a == b {
+					inter = append(inter, a)
+				}
+			}
+		}
+		st.keepPkgs = inter
+	}
+	st.epoch++
+	u.nfresh++
+	st.epochID = u.nfresh
 }
 
 func (u *Unit) advanceAlloc(st *State) {
@@ -774,4 +825,126 @@ func (u *Unit) execReturn(st *State, x *ssa.Return) {
 	}
 	u.frameAtReturn(st, x, mkctx)
 	u.cover(st, x.Pos(), "return is reachable")
+}
+
+// typeFrameCheck discharges a `preserves P` clause by a type argument: no value whose type can reach a
+// named type of P occurs in the function or in anything it can call inside the repository.
+func (u *Unit) typeFrameCheck() {
+	c := *u.contract
+	if len(c.TypeFramePkgs) > 0 {
+		c.Preserves = c.TypeFramePkgs
+	}
+	seen := map[*ssa.Function]bool{}
+	var bad []string
+	reach := map[string]bool{}
+	var reaches func(t types.Type, depth int) bool
+	reaches = func(t types.Type, depth int) bool {
+		if t == nil || depth > 8 {
+			return false
+		}
+		key := types.TypeString(t, nil)
+		if v, ok := reach[key]; ok {
+			return v
+		}
+		reach[key] = false
+		r := false
+		switch x := types.Unalias(t).(type) {
+		case *types.Named:
+			if x.Obj().Pkg() != nil && pkgMatches(x.Obj().Pkg().Path(), c.Preserves) {
+				r = true
+			} else {
+				r = reaches(x.Underlying(), depth+1)
+			}
+		case *types.Pointer:
+			r = reaches(x.Elem(), depth+1)
+		case *types.Slice:
+			r = reaches(x.Elem(), depth+1)
+		case *types.Array:
+			r = reaches(x.Elem(), depth+1)
+		case *types.Map:
+			r = reaches(x.Key(), depth+1) || reaches(x.Elem(), depth+1)
+		case *types.Chan:
+			r = reaches(x.Elem(), depth+1)
+		case *types.Struct:
+			for i := 0; i < x.NumFields(); i++ {
+				if reaches(x.Field(i).Type(), depth+1) {
+					r = true
+				}
+			}
+		case *types.Signature:
+			for i := 0; i < x.Params().Len(); i++ {
+				if reaches(x.Params().At(i).Type(), depth+1) {
+					r = true
+				}
+			}
+			for i := 0; i < x.Results().Len(); i++ {
+				if reaches(x.Results().At(i).Type(), depth+1) {
+					r = true
+				}
+			}
+		case *types.Tuple:
+			for i := 0; i < x.Len(); i++ {
+				if reaches(x.At(i).Type(), depth+1) {
+					r = true
+				}
+			}
+		}
+		reach[key] = r
+		return r
+	}
+	var visit func(f *ssa.Function)
+	visit = func(f *ssa.Function) {
+		if f == nil || seen[f] || f.Blocks == nil {
+			return
+		}
+		seen[f] = true
+		if !u.eng.inRepo(calleePkg(f)) {
+			return
+		}
+		for _, b := range f.Blocks {
+			for _, ins := range b.Instrs {
+				if v, ok := ins.(ssa.Value); ok && reaches(v.Type(), 0) {
+					bad = append(bad, fmt.Sprintf("%s: %s has type %s", f.String(), v.Name(), v.Type()))
+				}
+				var ops []*ssa.Value
+				for _, op := range ins.Operands(ops) {
+					if op == nil || *op == nil {
+						continue
+					}
+					if fn, ok := (*op).(*ssa.Function); ok {
+						visit(fn)
+					} else if reaches((*op).Type(), 0) {
+						bad = append(bad, fmt.Sprintf("%s: operand %s has type %s", f.String(), (*op).Name(), (*op).Type()))
+					}
+				}
+				if ci, ok := ins.(ssa.CallInstruction); ok {
+					cc := ci.Common()
+					if cc.StaticCallee() == nil && !cc.IsInvoke() {
+						for _, cand := range u.eng.funcCandidates(cc.Signature()) {
+							visit(cand)
+						}
+					}
+				}
+			}
+		}
+		for _, af := range f.AnonFuncs {
+			visit(af)
+		}
+	}
+	visit(u.fn)
+	st := u.entry
+	if st == nil {
+		st = &State{}
+	}
+	o := &Obligation{Name: u.key + "#typeframe:preserves " + strings.Join(c.Preserves, ","), Kind: "typeframe", Func: u.key,
+		Clause: fmt.Sprintf("no value of a type reaching %s occurs in the %d repository functions reachable from %s", strings.Join(c.Preserves, ", "), len(seen), u.key),
+		Goal:   tTrue, unit: u, Tags: c.FrameTags}
+	if len(bad) == 0 {
+		o.Result, o.Solver = "unsat", "gocv-typeframe"
+	} else {
+		o.Result, o.Solver = "sat", "gocv-typeframe"
+		o.Output = strings.Join(bad, "\n")
+	}
+	o.Decided = true
+	u.obls = append(u.obls, o)
 }
